@@ -7140,17 +7140,17 @@ bool SoPlexBase<R>::areLPsInSync(const bool checkVecVals, const bool checkMatVal
       {
          for(int i = 0; i < _realLP->rhs().dim(); i++)
          {
-            if(((_realLP->rhs()[i] >= R(realParam(SoPlexBase<R>::INFTY)))
+            if(((_realLP->rhsUnscaled(i) >= R(realParam(SoPlexBase<R>::INFTY)))
                   != (_rationalLP->rhs()[i] >= _rationalPosInfty))
-                  || (_realLP->rhs()[i] < R(realParam(SoPlexBase<R>::INFTY))
+                  || (_realLP->rhsUnscaled(i) < R(realParam(SoPlexBase<R>::INFTY))
                       && _rationalLP->rhs()[i] < _rationalPosInfty
-                      && !isAdjacentTo(_rationalLP->rhs()[i], (double)_realLP->rhs()[i])))
+                      && !isAdjacentTo(_rationalLP->rhs()[i], (double)_realLP->rhsUnscaled(i))))
             {
                if(!quiet)
                {
                   SPX_MSG_INFO1(spxout, spxout << "Entries number " << i <<
                                 " of the right hand side vectors don't match."
-                                << " R LP: " << _realLP->rhs()[i] << "  Rational LP: " << _rationalLP->rhs()[i] << std::endl);
+                                << " R LP: " << _realLP->rhsUnscaled(i) << "  Rational LP: " << _rationalLP->rhs()[i] << std::endl);
                }
 
                rhsValMatch = false;
@@ -7170,17 +7170,17 @@ bool SoPlexBase<R>::areLPsInSync(const bool checkVecVals, const bool checkMatVal
       {
          for(int i = 0; i < _realLP->lhs().dim(); i++)
          {
-            if(((_realLP->lhs()[i] <= R(-realParam(SoPlexBase<R>::INFTY)))
+            if(((_realLP->lhsUnscaled(i) <= R(-realParam(SoPlexBase<R>::INFTY)))
                   != (_rationalLP->lhs()[i] <= _rationalNegInfty))
-                  || (_realLP->lhs()[i] > R(-realParam(SoPlexBase<R>::INFTY))
+                  || (_realLP->lhsUnscaled(i) > R(-realParam(SoPlexBase<R>::INFTY))
                       && _rationalLP->lhs()[i] > _rationalNegInfty
-                      && !isAdjacentTo(_rationalLP->lhs()[i], (double)_realLP->lhs()[i])))
+                      && !isAdjacentTo(_rationalLP->lhs()[i], (double)_realLP->lhsUnscaled(i))))
             {
                if(!quiet)
                {
                   SPX_MSG_INFO1(spxout, spxout << "Entries number " << i <<
                                 " of the left hand side vectors don't match."
-                                << " R LP: " << _realLP->lhs()[i] << "  Rational LP: " << _rationalLP->lhs()[i] << std::endl);
+                                << " R LP: " << _realLP->lhsUnscaled(i) << "  Rational LP: " << _rationalLP->lhs()[i] << std::endl);
                }
 
                lhsValMatch = false;
@@ -7200,13 +7200,13 @@ bool SoPlexBase<R>::areLPsInSync(const bool checkVecVals, const bool checkMatVal
       {
          for(int i = 0; i < _realLP->maxObj().dim(); i++)
          {
-            if(!isAdjacentTo(_rationalLP->maxObj()[i], (double)_realLP->maxObj()[i]))
+            if(!isAdjacentTo(_rationalLP->maxObj()[i], (double)_realLP->maxObjUnscaled(i)))
             {
                if(!quiet)
                {
                   SPX_MSG_INFO1(spxout, spxout << "Entries number " << i <<
                                 " of the objective function vectors don't match."
-                                << " R LP: " << _realLP->maxObj()[i] << "  Rational LP: " << _rationalLP->maxObj()[i] << std::endl);
+                                << " R LP: " << _realLP->maxObjUnscaled(i) << "  Rational LP: " << _rationalLP->maxObj()[i] << std::endl);
                }
 
                maxObjValMatch = false;
@@ -7226,16 +7226,16 @@ bool SoPlexBase<R>::areLPsInSync(const bool checkVecVals, const bool checkMatVal
       {
          for(int i = 0; i < _realLP->upper().dim(); i++)
          {
-            if(((_realLP->upper()[i] >= R(realParam(SoPlexBase<R>::INFTY)))
+            if(((_realLP->upperUnscaled(i) >= R(realParam(SoPlexBase<R>::INFTY)))
                   != (_rationalLP->upper()[i] >= _rationalPosInfty))
-                  || (_realLP->upper()[i] < R(realParam(SoPlexBase<R>::INFTY))
+                  || (_realLP->upperUnscaled(i) < R(realParam(SoPlexBase<R>::INFTY))
                       && _rationalLP->upper()[i] < _rationalPosInfty
-                      && !isAdjacentTo(_rationalLP->upper()[i], (double)_realLP->upper()[i])))
+                      && !isAdjacentTo(_rationalLP->upper()[i], (double)_realLP->upperUnscaled(i))))
             {
                if(!quiet)
                {
                   SPX_MSG_INFO1(spxout, spxout << "Entries number " << i << " of the upper bound vectors don't match."
-                                << " R LP: " << _realLP->upper()[i] << "  Rational LP: " << _rationalLP->upper()[i] << std::endl);
+                                << " R LP: " << _realLP->upperUnscaled(i) << "  Rational LP: " << _rationalLP->upper()[i] << std::endl);
                }
 
                upperValMatch = false;
@@ -7254,16 +7254,16 @@ bool SoPlexBase<R>::areLPsInSync(const bool checkVecVals, const bool checkMatVal
       {
          for(int i = 0; i < _realLP->lower().dim(); i++)
          {
-            if(((_realLP->lower()[i] <= R(-realParam(SoPlexBase<R>::INFTY)))
+            if(((_realLP->lowerUnscaled(i) <= R(-realParam(SoPlexBase<R>::INFTY)))
                   != (_rationalLP->lower()[i] <= _rationalNegInfty))
-                  || (_realLP->lower()[i] >= R(-realParam(SoPlexBase<R>::INFTY))
+                  || (_realLP->lowerUnscaled(i) >= R(-realParam(SoPlexBase<R>::INFTY))
                       && _rationalLP->lower()[i] > _rationalNegInfty
-                      && !isAdjacentTo(_rationalLP->lower()[i], (double)_realLP->lower()[i])))
+                      && !isAdjacentTo(_rationalLP->lower()[i], (double)_realLP->lowerUnscaled(i))))
             {
                if(!quiet)
                {
                   SPX_MSG_INFO1(spxout, spxout << "Entries number " << i << " of the lower bound vectors don't match."
-                                << " R LP: " << _realLP->lower()[i] << "  Rational LP: " << _rationalLP->lower()[i] << std::endl);
+                                << " R LP: " << _realLP->lowerUnscaled(i) << "  Rational LP: " << _rationalLP->lower()[i] << std::endl);
                }
 
                lowerValMatch = false;
@@ -7283,17 +7283,22 @@ bool SoPlexBase<R>::areLPsInSync(const bool checkVecVals, const bool checkMatVal
    {
       bool matrixValMatch = true;
 
+      // compare the user's values: a persistently scaled real LP stores scaled ones
+      DSVectorBase<R> realCol(_realLP->nRows());
+
       for(int i = 0; i < _realLP->nCols() ; i++)
       {
+         _realLP->getColVectorUnscaled(i, realCol);
+
          for(int j = 0; j < _realLP->nRows() ; j++)
          {
-            if(!isAdjacentTo(_rationalLP->colVector(i)[j], (double)_realLP->colVector(i)[j]))
+            if(!isAdjacentTo(_rationalLP->colVector(i)[j], (double)realCol[j]))
             {
                if(!quiet)
                {
                   SPX_MSG_INFO1(spxout, spxout << "Entries number " << j << " of column number " << i <<
                                 " don't match."
-                                << " R LP: " << _realLP->colVector(i)[j] << "  Rational LP: " << _rationalLP->colVector(
+                                << " R LP: " << realCol[j] << "  Rational LP: " << _rationalLP->colVector(
                                    i)[j] << std::endl);
                }
 
